@@ -7,7 +7,7 @@ VARIANTS = [
     M("open-linspace-int-division", "curve.Math.open_linspace", "Fraction(num) / (2 * npts)", "num / (2 * npts)", ["R13.1"], "open_linspace"),
     M("square-half-float", "primitive.Primitive.square", "side /= 2", "side *= 0.5", ["R13.1"], "Primitive.square"),
     M("points-int-division", "jordancurve.JordanCurve.points", "Fraction(num, npts + 1)", "num / (npts + 1)", ["R13.1"], "JordanCurve.points"),
-    M("move-through-float", "polygon.Point2D.move", "self._x += vector[0]", "self._x = float(self._x) + vector[0]", ["R13.1"], "Point2D.move"),
+    M("move-through-float", "polygon.Point2D.move", "new_x = self._x + vector[0]", "new_x = float(self._x) + vector[0]", ["R13.1"], "Point2D.move"),
     # (float sample parameters that only feed containment predicates are not C13 violations: not listed)
     M("crossing-param-rounded", "curve.Intersection.lines", "return (param0, param1)",
       "return (param0.limit_denominator(10 ** 9), param1.limit_denominator(10 ** 9))", ["R13.1"], "Intersection.lines"),
